@@ -412,7 +412,10 @@ def write_evidence(prop: str, tier: str, seed: int, t0: float, scen: dict, stats
         "probes": agg.get("probes", {}),
         "id_algorithm_reach": {k: agg.get("calls", {}).get(k, 0) for k in
                                ("identify", "line_1", "line_2", "line_3", "line_4", "line_7", "p_parents",
-                                "_get_single_district", "with_treatments", "from_parts")} if prop == "C02" else None,
+                                "_get_single_district", "with_treatments", "from_parts")} | {
+                                   "line_5_refusals(=unident verdicts)": agg.get("probes", {}).get("ID.verdict.unident", 0),
+                                   "line_6_or_7_reached(=_get_single_district)": agg.get("calls", {}).get("_get_single_district", 0),
+                               } if prop == "C02" else None,
         "extra": {k: v for k, v in agg.items() if k not in ("events", "switches", "faults", "ops", "switch_sites",
                                                               "abort_sites", "calls", "probes")},
         "violation_signatures": res.get("sigs", {}),
